@@ -27,7 +27,12 @@ RULE = ('E2 explicit-state exploration of the sans-io receive loop: a peer '
         'and the envelope clause on every input of the E4 spaces '
         'that decodes successfully. A state is (sequence, c, r) / (frame, '
         'trailer) / input; non-trivial = a successful decode with trailing '
-        'bytes or an envelope check performed.')
+        'bytes or an envelope check performed.'
+        ' '
+        'Also: every single-frame buffer of the E4 spaces up to 4 KiB '
+        '(length lies inside a correct envelope included) decoded '
+        'alone, followed by filler and followed by itself must give '
+        'the same outcome.')
 BOUNDS = {'quick': {'sequence_length': 3, 'lookahead_frames': 2,
                     'trailers': '9 fixed + 7..44 derived'},
           'thorough': {'sequence_length': 4, 'lookahead_frames': 2,
